@@ -1651,3 +1651,119 @@ func extra3C18(c *Ctx) {
 		c.Check("C18-R7", f.Key()+" whole list when k <= 0, else k elements", c.Pos(f.Decl), whole && sized, "topK must return its argument on every path where k <= 0 and otherwise a list whose length derives from k")
 	}
 }
+
+// ---------------------------------------------------------------------------- C17-R7
+
+func init() {
+	prev := registry["C17"].Run
+	registry["C17"].Run = func(c *Ctx) { prev(c); extra3C17(c) }
+}
+
+func extra3C17(c *Ctx) {
+	c.Rule("C17-R7", "the NDJSON writer passes on every object the handler produced, once, in order, one per line: streamResponse's stream callback takes each value from the handler's channel, stops when it is closed, marshals that very value, appends a newline to the marshalled bytes and writes exactly those bytes once, and asks to be called again (returns true) only after a successful write")
+	info := c.P.Pkgs["server"].TypesInfo
+	f := c.Fn("C17-R7", "server", "streamResponse")
+	if f == nil {
+		return
+	}
+	var cb *core.Func
+	for _, call := range core.Calls(f.Body, false) {
+		if strings.HasSuffix(core.CalleeName(info, call), "gin.Context.Stream") && len(call.Args) == 1 {
+			for _, l := range f.Lits() {
+				if l.Lit == ast.Unparen(call.Args[0]) {
+					cb = l
+				}
+			}
+		}
+	}
+	if cb == nil {
+		c.Undecided("C17-R7", "anchor:stream callback in streamResponse", "-", "anchor lost")
+		return
+	}
+	g := c.G(cb)
+	chParam := paramAt(f, 1)
+	// receive
+	var valObj, okObj types.Object
+	var recvLoc core.Loc
+	for _, h := range g.Find(func(n ast.Node) bool {
+		as, ok := n.(*ast.AssignStmt)
+		if !ok || len(as.Rhs) != 1 {
+			return false
+		}
+		u, isU := ast.Unparen(as.Rhs[0]).(*ast.UnaryExpr)
+		return isU && u.Op == token.ARROW && isIdentOf(info, u.X, chParam)
+	}) {
+		as := h.Node.(*ast.AssignStmt)
+		if len(as.Lhs) == 2 {
+			valObj = info.ObjectOf(as.Lhs[0].(*ast.Ident))
+			okObj = info.ObjectOf(as.Lhs[1].(*ast.Ident))
+			recvLoc = h.Loc
+		}
+	}
+	marsh := g.FindCalls("encoding/json.Marshal")
+	writes := g.FindCalls("io.Writer.Write")
+	if valObj == nil || len(marsh) != 1 || len(writes) != 1 {
+		c.Check("C17-R7", cb.Key()+" one receive (comma-ok), one Marshal, one Write", c.Pos(cb.Lit), false, "the callback must receive `v, ok := <-ch`, marshal once and write once per call")
+		return
+	}
+	mc, wc := marsh[0].Node.(*ast.CallExpr), writes[0].Node.(*ast.CallExpr)
+	btsObj := core.ResultVar(info, marsh[0].Top, mc, 0)
+	okVal := isIdentOf(info, mc.Args[0], valObj) && g.Dominates(recvLoc, marsh[0].Loc)
+	c.Check("C17-R7", cb.Key()+" marshals the value just received", c.Pos(mc), okVal, "json.Marshal must be applied to the value taken from the channel in this call")
+	// newline appended to the marshalled bytes, then exactly those bytes written
+	nl := false
+	if btsObj != nil {
+		for _, as := range g.AssignsTo(btsObj) {
+			a, ok := as.Node.(*ast.AssignStmt)
+			if !ok || len(a.Rhs) != 1 || as.Loc == marsh[0].Loc {
+				continue
+			}
+			for _, ap := range core.CallsTo(info, a.Rhs[0], false, "builtin.append") {
+				if len(ap.Args) == 2 && isIdentOf(info, ap.Args[0], btsObj) {
+					if v, isC := core.ConstInt(info, ap.Args[1]); isC && v == '\n' && g.Dominates(marsh[0].Loc, as.Loc) && g.Dominates(as.Loc, writes[0].Loc) {
+						nl = true
+					}
+				}
+			}
+		}
+	}
+	okW := btsObj != nil && isIdentOf(info, wc.Args[0], btsObj)
+	if s, _ := g.OnSuccessOf(marsh[0], writes[0].Loc); !s {
+		okW = false
+	}
+	c.Check("C17-R7", cb.Key()+" writes the marshalled bytes plus a newline", c.Pos(wc), nl && okW, "the bytes written must be the Marshal result with '\\n' appended (one JSON object per line), on Marshal's success edge")
+	// returns
+	okRet := true
+	nTrue := 0
+	why := ""
+	for _, ex := range g.Returns() {
+		v := core.ExprString(ex.Return.Results[0])
+		switch v {
+		case "true":
+			nTrue++
+			if s, _ := g.OnSuccessOf(writes[0], ex.Loc); !s {
+				okRet, why = false, "`return true` at "+c.Pos(ex.Return)+" is not behind a successful Write"
+			}
+		case "false":
+			// fine anywhere except on the success path after the write
+			if s, _ := g.OnSuccessOf(writes[0], ex.Loc); s && g.Reaches(writes[0].Loc, ex.Loc) {
+				okRet, why = false, "`return false` after a successful write ends the stream with objects still to come"
+			}
+		default:
+			okRet, why = false, "return "+v
+		}
+	}
+	// closed channel ends the stream
+	closed := false
+	for _, ex := range g.Returns() {
+		if core.ExprString(ex.Return.Results[0]) != "false" {
+			continue
+		}
+		for _, a := range g.AtomsAt(ex.Loc) {
+			if id, isID := ast.Unparen(a.Expr).(*ast.Ident); isID && info.Uses[id] == okObj && !a.Val {
+				closed = true
+			}
+		}
+	}
+	c.Check("C17-R7", cb.Key()+" continues only after a successful write, stops on a closed channel", c.Pos(cb.Lit), okRet && nTrue >= 1 && closed, why)
+}
